@@ -173,6 +173,16 @@ def mw_shapes(tier):
             if n >= 1:
                 for cut in range(0, n + 1):
                     shapes.append(ops[:cut] + [{"k": "nest", "bp": {"ops": ops[cut:] + [route]}}])
+            # bulk route import (`bp.routes(from![..])`) instead of an individually registered route:
+            # the imported routes must see exactly the middlewares registered before the import
+            if n <= (2 if tier == "quick" else 3):
+                imp = {"k": "routes", "module": "crate::bulk1"}
+                shapes.append(ops + [imp])
+                for k in kinds:
+                    if counters[k] < 3:
+                        shapes.append(ops + [imp, {"k": k, "c": mw_id(k, counters[k] + 1)}])
+                if n >= 1:
+                    shapes.append(ops[:1] + [{"k": "nest", "bp": {"ops": ops[1:] + [imp, {"k": "pre", "c": mw_id("pre", 3)}]}}])
             if tier == "thorough" and n >= 2:
                 # a second route registered mid-word (sees only the prefix of the word)
                 for cut in range(0, n):
